@@ -168,6 +168,22 @@ func runC12(c *Ctx) {
 				}
 			}
 		}
+		// ... and so does the map-based decoder, for every kind
+		if g, e := jwt.DecodeGeneric(tok); e != nil || g == nil {
+			c.Violate("decode-after-encode", "DecodeGeneric refuses the token just produced", rp)
+		} else {
+			if g.Issuer != cd.Issuer || g.IssuedAt != cd.IssuedAt || g.ID != cd.ID {
+				c.Violate("decode-reports", "DecodeGeneric reports different issuer / issue time / id", rp)
+			}
+			if kind != "generic" && string(g.ClaimType()) != kind {
+				c.Violate("decode-reports", fmt.Sprintf("DecodeGeneric reports kind %q for a %s token", g.ClaimType(), kind), rp)
+			}
+			if kind != "generic" {
+				if v, ok := g.Data["version"]; !ok || fmt.Sprint(v) != "2" {
+					c.Violate("decode-reports", fmt.Sprintf("DecodeGeneric reports version %v for a %s token", v, kind), rp)
+				}
+			}
+		}
 		// id depends only on the other standard fields: whatever the previous id and the payload
 		_ = prevID
 		cl.Claims().ID = "junk-" + prevID
